@@ -41,33 +41,14 @@ def mutations(root):
 
 
 def size_source_rule(F, rep):
-    for fn, table in (("io::slippi::de::parse_event", "state.payload_sizes"), ("io::slippi::de::parse_game_start", "payload_sizes")):
-        b = F.body(fn)
-        size_ok = buf_ok = exact_ok = False
-        other_sizes = []
-        for n in tir.walk(b["tir"]["value"]):
-            if n.get("k") == "Let" and n["pat"].get("k") == "Bind" and n["pat"].get("name") == "size":
-                i = n["init"]
-                idx = [x for x in tir.walk(i) if x.get("k") == "Index"]
-                ix = strip(idx[0]["index"]) if idx else {}
-                if ix.get("k") == "Cast":
-                    ix = strip(ix["e"])
-                size_ok = len(idx) == 1 and tir.place(idx[0]["base"]) == table and tir.place(ix) == "code" and ".get()" in tir.pretty(i)
-                calls = [callee(x) or "" for x in tir.walk(i) if x.get("k") in ("Call", "MethodCall")]
-                other_sizes = [c for c in calls if c.endswith("::size") or "size_of" in c]
-            if n.get("k") == "Let" and n["pat"].get("k") == "Bind" and n["pat"].get("name") == "buf" and tir.in_macro(n["init"], "vec"):
-                locs = [x.get("name") for x in tir.walk(n["init"]) if x.get("k") == "Path" and x.get("res") == "local"]
-                buf_ok = locs == ["size"]
-            if n.get("k") == "MethodCall" and n["method"] == "read_exact" and L.local_name(n["recv"]) == "r" and L.local_name(strip(n["args"][0])) == "buf":
-                exact_ok = True
-        rep.ob("size-source", size_ok and buf_ok and exact_ok and not other_sizes, fn, "buffer",
-               "%s: the payload buffer must be sized by the file's own table indexed by the raw code and nothing else (size_ok=%s buf_ok=%s read_exact=%s other=%s)" % (fn, size_ok, buf_ok, exact_ok, other_sizes),
-               sample={"fn": fn, "size": table + "[code]"})
-    # the code used to index is the raw byte, converted to Event only afterwards
+    for fn in ("io::slippi::de::parse_event", "io::slippi::de::parse_game_start"):
+        d = events.payload_buffer(F, fn)
+        rep.ob("size-source", d["ok"], fn, "buffer",
+               "%s: the payload buffer must be sized by the file's own table indexed by the raw code and nothing else: %s" % (fn, "; ".join(d["problems"])), sample={"fn": fn, "size": "%s[code]" % d["table"]})
+    # the code is converted to Event only after the payload was consumed, tolerating failure
     b = F.body("io::slippi::de::parse_event")
-    txt = tir.pretty(b["tir"]["value"])
-    rep.ob("size-source.raw-code", "io::slippi::de::Event as std::convert::TryFrom<u8>>::try_from(code).ok()" in txt.replace("std::convert::TryFrom::try_from", "io::slippi::de::Event as std::convert::TryFrom<u8>>::try_from") or ".ok()" in txt,
-           "io::slippi::de::parse_event", "raw-code", "the event code must be converted to Event only after the payload was consumed, tolerating failure")
+    conv = [n for n in tir.walk(b["tir"]["value"]) if n.get("k") == "MethodCall" and n["method"] == "ok" and "io::slippi::de::Event" in (n["recv"].get("ty") or "")]
+    rep.ob("size-source.raw-code", len(conv) == 1, "io::slippi::de::parse_event", "raw-code", "the event code must be converted to Event exactly once, tolerating failure (`Event::try_from(code).ok()`)")
 
 
 def unknown_path_rule(F, rep):
